@@ -57,13 +57,17 @@ func plan(seed int64, tier string) []vrt.Case {
 	if tier == "thorough" {
 		nT, nR, per, nH, perH = 64, 64, 40000, 100, 50
 	}
-	for i := 0; i < nT; i++ {
+	// one case of every kind first (they become the evidence samples), then the rest
+	add("tuples", 0, per)
+	add("raw", 0, per)
+	add("hist", 0, perH)
+	for i := 1; i < nT; i++ {
 		add("tuples", i, per)
 	}
-	for i := 0; i < nR; i++ {
+	for i := 1; i < nR; i++ {
 		add("raw", i, per)
 	}
-	for i := 0; i < nH; i++ {
+	for i := 1; i < nH; i++ {
 		add("hist", i, perH)
 	}
 	return cs
